@@ -119,6 +119,10 @@ int main(void)
       const char *f = (ntok > 1 && strcmp(tok[1], "*")) ? tok[1] : NULL;
       int r = !strcmp(c, "flush") ? gd_flush(D, f) : !strcmp(c, "sync") ? gd_sync(D, f) : gd_raw_close(D, f);
       printf("%s %d\n", c, r);
+    } else if (!strcmp(c, "standards")) {
+      /* standards v : gd_dirfile_standards (v: 0.., -1 current, -2 latest, -3 earliest) */
+      int r = gd_dirfile_standards(D, atoi(tok[1]));
+      printf("standards %d %d\n", r, gd_error(D));
     } else if (!strcmp(c, "metaflush")) {
       printf("metaflush %d\n", gd_metaflush(D));
     } else if (!strcmp(c, "nframes")) {
